@@ -100,7 +100,13 @@ func (c *skTc) eval(e ast.Expr) *skVal {
 		}
 	case *ast.SelectorExpr:
 		if v := c.eval(e.X); v != nil && v.fields != nil {
-			return v.fields[e.Sel.Name]
+			if f := v.fields[e.Sel.Name]; f != nil {
+				return f
+			}
+		}
+		// a channel held in a field of the transfer object: one shared channel per field
+		if c.g.exprType(c.fn, e.X) == "trzszTransfer" && strings.HasPrefix(c.g.exprType(c.fn, e), "chan") {
+			return c.g.fieldChan(e.Sel.Name)
 		}
 	case *ast.FuncLit:
 		return &skVal{kind: skvClosure, lit: e, env: c.env, fn: c.fn}
@@ -888,6 +894,29 @@ func (c *skTc) spawn(call *ast.CallExpr) ([]*skVal, bool) {
 	}
 	setup(fd.Body.List)
 	return results, true
+}
+
+func (g *skGen) fieldChan(field string) *skVal {
+	name := "transfer_" + field
+	for _, ch := range g.net.chans {
+		if ch.name == name {
+			return &skVal{kind: skvChan, ch: ch}
+		}
+	}
+	cap := int64(0)
+	ast.Inspect(g.s.fn("newTransfer"), func(n ast.Node) bool {
+		if kv, ok := n.(*ast.KeyValueExpr); ok {
+			if id, ok := kv.Key.(*ast.Ident); ok && id.Name == field {
+				if call, ok := kv.Value.(*ast.CallExpr); ok && len(call.Args) == 2 {
+					cap = g.s.evalInt(call.Args[1], nil, 0)
+				}
+			}
+		}
+		return true
+	})
+	ch := &skChan{name: name, cap: cap}
+	g.net.chans = append(g.net.chans, ch)
+	return &skVal{kind: skvChan, ch: ch}
 }
 
 func (g *skGen) addWg(w string) {
